@@ -255,7 +255,9 @@ def _decode_value_checks(code, D, dlen_expr, phase_sym, exact=None):
     s.append('  VP_ASSERT(dv.data == 0 && oslot == &dv, "C08 %s length query writes nothing but the length");' % name)
     s.append('  VP_ASSERT(vp_bytes_eq(obj, ref, MSZ), "C08 %s length query does not modify the message");' % name)
     s.append('  /* phase 2: destination of the reported length */')
-    s.append('  uint8_t *dest = vp_obj_from(in.out0, %d); dv.data = (void *)dest;' % n)
+    s.append('  /* the length field of the result object may hold anything on entry (one-shot decode into a fresh */')
+    s.append('  /* or reused struct): symbolic, which includes "still holds the length reported by phase 1" */')
+    s.append('  uint8_t *dest = vp_obj_from(in.out0, %d); dv.data = (void *)dest; dv.data_length = in.junk2;' % n)
     s.append('  Avtp_Vss_GetVssData(pdu, outp);')
     s.append('  VP_ASSERT(dv.data_length == %s, "C08 %s decode reports the value length in bytes");' % (dlen_expr, name))
     if exact is None:
@@ -270,7 +272,7 @@ def c08_functional(code, mode, P, D):
     name, size, kind = W.VSS_TYPES[code]
     M = H + 2 + P + 2 + D + 8
     o = [PRELUDE, '#define MSZ %d' % M]
-    o.append('typedef struct { uint8_t mem[%d]; uint8_t path[%d]; uint16_t plen; uint32_t sid; uint8_t src[%d]; uint16_t dlen; uint8_t pout0[%d]; uint8_t out0[%d]; uint16_t junk; uint32_t junk32; } vp_in_t;'
+    o.append('typedef struct { uint8_t mem[%d]; uint8_t path[%d]; uint16_t plen; uint32_t sid; uint8_t src[%d]; uint16_t dlen; uint8_t pout0[%d]; uint8_t out0[%d]; uint16_t junk, junk2; uint32_t junk32; } vp_in_t;'
              % (M, max(P, 1), max(D, 8), max(P, 1), max(D, 16)))
     o.append('void harness(void) {')
     o.append('  VP_INPUT(vp_in_t, in);')
@@ -308,7 +310,7 @@ def c08_extent(code, mode, plen, count):
     vl = size if kind == 'scalar' else 2 + dlen
     M = H + pl + vl
     o = [PRELUDE, '#define MSZ %d' % M]
-    o.append('typedef struct { uint8_t mem[%d]; uint8_t path[%d]; uint32_t sid; uint8_t src[%d]; uint8_t pout0[%d]; uint8_t out0[%d]; uint16_t junk; uint32_t junk32; } vp_in_t;'
+    o.append('typedef struct { uint8_t mem[%d]; uint8_t path[%d]; uint32_t sid; uint8_t src[%d]; uint8_t pout0[%d]; uint8_t out0[%d]; uint16_t junk, junk2; uint32_t junk32; } vp_in_t;'
              % (M, max(plen, 1), max(dlen, 8), max(plen, 1), max(dlen, 16)))
     o.append('void harness(void) {')
     o.append('  VP_INPUT(vp_in_t, in);')
